@@ -53,7 +53,7 @@ class Harness:
                                      stderr=subprocess.DEVNULL, text=True, bufsize=1 << 20,
                                      encoding="utf-8", errors="surrogatepass")
 
-    def run(self, requests, chunk=2000):
+    def run(self, requests, chunk=20000):
         """Send all requests, return responses (same order).  Hangs/aborts of the code under
         test are data: the offending request gets {"timeout": true} or {"abort": rc}."""
         out = []
@@ -68,16 +68,17 @@ class Harness:
         return out
 
     def _run_batch(self, batch):
+        import select
         import threading
         results = []
         pos = 0
         while pos < len(batch):
-            self._start()
-            proc = self.proc
             todo = batch[pos:]
-            payload = "".join(json.dumps(r, ensure_ascii=False) + "\n" for r in todo)
+            proc = subprocess.Popen([self.binpath], stdin=subprocess.PIPE, stdout=subprocess.PIPE,
+                                    stderr=subprocess.DEVNULL)
+            payload = "".join(json.dumps(r, ensure_ascii=False) + "\n" for r in todo).encode("utf-8", "surrogatepass")
 
-            def feed():
+            def feed(proc=proc, payload=payload):
                 try:
                     proc.stdin.write(payload)
                     proc.stdin.close()
@@ -85,27 +86,30 @@ class Harness:
                     pass
             th = threading.Thread(target=feed, daemon=True)
             th.start()
+            fd = proc.stdout.fileno()
+            buf = bytearray()
             got = []
-            timer_fired = {"v": False}
-
-            def kill():
-                timer_fired["v"] = True
-                try:
+            timed_out = False
+            while len(got) < len(todo):
+                r, _, _ = select.select([fd], [], [], self.per_request_timeout)
+                if not r:
+                    timed_out = True
                     proc.kill()
-                except Exception:
-                    pass
-            # watchdog re-armed per response line
-            for _ in range(len(todo)):
-                timer = threading.Timer(self.per_request_timeout, kill)
-                timer.start()
-                line = proc.stdout.readline()
-                timer.cancel()
-                if not line:
                     break
-                try:
-                    got.append(json.loads(line))
-                except Exception:
-                    got.append({"tool_error": "bad harness output: " + line[:200]})
+                data = os.read(fd, 1 << 20)
+                if not data:
+                    break
+                buf += data
+                if b"\n" in data:
+                    lines = buf.split(b"\n")
+                    buf = bytearray(lines.pop())
+                    for ln in lines:
+                        if not ln:
+                            continue
+                        try:
+                            got.append(json.loads(ln))
+                        except Exception:
+                            got.append({"tool_error": "bad harness output: " + ln[:200].decode("utf-8", "replace")})
             try:
                 proc.stdout.close()
             except Exception:
@@ -115,10 +119,7 @@ class Harness:
             pos += len(got)
             if len(got) < len(todo):
                 # the request at `pos` killed or hung the process
-                if timer_fired["v"]:
-                    results.append({"timeout": True})
-                else:
-                    results.append({"abort": rc})
+                results.append({"timeout": True} if timed_out else {"abort": rc})
                 pos += 1
         return results
 
@@ -146,7 +147,7 @@ class Ctx:
         self.extra = {}
         self._harness = {}
         self.quick = tier == "quick"
-        self.workers = int(os.environ.get("VERIF_TLC_WORKERS", "12"))
+        self.workers = int(os.environ.get("VERIF_TLC_WORKERS", "8"))
 
     # ---------------------------------------------------------------- harness
     def harness(self, config="default"):
